@@ -195,12 +195,19 @@ def run(chk: common.Check):
                 d = rng.choice([0, 0, 0, 10, 6, 14, rng.choice(ids), 999])
                 group = gen_group(rng, h, letters, alpha_ws, d)
             results = []
+            fresh = type(h)(h.siteinfo)      # a handler without history
             for t in group:
                 evaluations += 1
                 try:
                     r = h.splitname(t, d)
                 except KeyError:
                     r = "keyerror"
+                try:
+                    rf = fresh.splitname(t, d)
+                except KeyError:
+                    rf = "keyerror"
+                if rf != r:
+                    viol.append({"kind": "history-dependent", "lang": lang, "d": d, "title": t, "result": r, "fresh_handler_result": rf})
                 results.append(r)
                 reqs.append(f"split {lang};{d};{enc(t)}")
                 meta.append((lang, d, t, r))
